@@ -94,7 +94,9 @@ impl ConnBuffer {
         loop {
             let nread = reader.read_line(&mut self.line)?;
             if nread == 0 {
-                todo!()
+                return self
+                    .ctx
+                    .err(BuildFailure::NoRawField("connection matrix header"));
             }
             self.ctx.add_line(1);
             if !EMPTY_LINE.is_match(&self.line) {
